@@ -200,14 +200,12 @@ Example early_monitor_accepts_deduplicated_task :
   trace_ok rw3_cfg 0 (model_trace rw3_cfg 0 rw3_evs) = true.
 Proof. exact (conj rw3_hypotheses rw3_accepted). Qed.
 
-(* ---- position 15 (e_early) rejects a model trace: an assignment whose delivery was cancelled ----
+(* ---- regression: position 15 (e_early) and an assignment whose delivery was cancelled ----
    rw4_evs (ProofsMonW.v), retry count 1: a parked worker's Synchronize call is cancelled; before it leaves the scheduler
    an Execute hands the still listed worker a task; the call returns CANCELLED and the worker holds a task it was never
-   told about.  It asks again: the scheduler finds a held task, counts a retry and tells it (the monitor's first DExec,
-   count 0); it asks once more: limit reached, INTERNAL; e_early reads 0 <> 1.  The scheduler counts how often it found
-   the worker holding the task, the monitor how often the worker was told again. *)
-Example early_monitor_rejects_undelivered_assignment :
+   told about.  It asks again (the scheduler counts a retry and tells it) and once more (limit reached, INTERNAL).  An
+   earlier p_step counted the answers the worker got; it now counts the re-requests, as the scheduler does. *)
+Example early_monitor_accepts_undelivered_assignment :
   (selectors_in_range (init rw3_cfg 0) rw4_evs /\ fresh_calls [] rw4_evs /\ bg_scripts_ok rw4_evs /\ learner_ids_unique rw4_evs /\ causes_ok rw4_evs) /\
-  trace_ok rw3_cfg 0 (model_trace rw3_cfg 0 rw4_evs) = false /\
-  trace_sub [0;1;2;3;4;5;6;7;8;9;10;11;12;13;14;16;17;18;19]%nat rw3_cfg 0 (model_trace rw3_cfg 0 rw4_evs) = true.
-Proof. exact (conj rw4_hypotheses (conj (proj1 rw4_rejected) rw4_others_accept)). Qed.
+  trace_ok rw3_cfg 0 (model_trace rw3_cfg 0 rw4_evs) = true.
+Proof. exact (conj rw4_hypotheses rw4_accepted). Qed.
